@@ -27,6 +27,9 @@ func main() {
 		usage()
 		os.Exit(2)
 	}
+	// miniredis' accept loop and the shared keys must exist before any synctest bubble is entered
+	sharedMiniredis()
+	sharedKeys()
 	for _, c := range cmds {
 		if c.name == os.Args[1] {
 			if err := c.run(os.Args[2:]); err != nil {
